@@ -712,7 +712,8 @@ func init() {
 			fi := a.fi
 			n := 0
 			for i, ret := range fi.returnsOf() {
-				if len(ret.Results) != 2 || fi.isNilIdent(ret.Results[0]) {
+				// a success return is one that reports no errors: `return calls, nil` — and `return nil, nil` too
+				if len(ret.Results) != 2 || !fi.isNilIdent(ret.Results[1]) {
 					continue
 				}
 				n++
